@@ -48,6 +48,11 @@ def shards(tier, seed):
         for p in range(3):
             out.append({'kind': 'skewed', 'narrow': [2, 3], 'wide': [11, 13, 30], 'part': p, 'parts': 3, 'budget_s': budget})
         out.append({'kind': 'targeted', 'items': [['DEFAULT', 12, 9, True], ['POW2_M1', 15, 15, False], ['square_pow2', 17, None, True]], 'budget_s': budget})
+        # machine-word sized operands for every mode (column heights, carries and recursion splits that small widths never reach)
+        for mode in ('DEFAULT', 'ALTER', 'DADDA', 'WALLACE', 'POW2_M1', 'add_mul_pow2_m1'):
+            out.append({'kind': 'targeted', 'items': [[mode, 32, 32, mode in ('ALTER', 'WALLACE')], [mode, 24, 33, True], [mode, 27, 25, False]],
+                        'budget_s': budget})
+        out.append({'kind': 'targeted', 'items': [['square_pow2', 32, None, False], ['square', 33, None, True]], 'budget_s': budget})
     else:
         for p in range(12):
             out.append({'kind': 'random', 'count': 3000, 'budget_s': budget, 'maxw': 12})
@@ -68,6 +73,9 @@ def shards(tier, seed):
                 items.append([mode, n, m, (n + m) % 2 == 0])
         for n in (15, 16, 31, 33):
             items.append(['square_pow2', n, None, False])
+        for mode in ('DEFAULT', 'ALTER', 'DADDA', 'WALLACE', 'POW2_M1', 'add_mul_pow2_m1'):
+            for n, m in ((32, 32), (24, 33), (27, 25), (33, 24), (40, 40), (25, 24), (64, 64) if mode != 'ALTER' else (48, 48)):
+                items.append([mode, n, m, (n + m) % 4 == 0])
         for i in range(0, len(items), 2):
             out.append({'kind': 'targeted', 'items': items[i:i + 2], 'budget_s': budget})
         for p in range(12):
